@@ -212,6 +212,13 @@ def diff_strings_linewise(a: "V", b: "V") -> "Seq[E]":
                 for q in range(len(result))))
 
 
+@lemma("apply_map_nil")
+def apply_map_nil(m: "map", D: "Seq[ME]"):
+    # applying the empty mapping diff changes nothing (pointwise from the definition of apply_map, then extensionality)
+    requires(len(D) == 0)
+    ensures(apply_map(m, D) == m)
+
+
 @contract("nbdime.diffing.generic.diff", properties=["C02", "C01", "C11"])
 def diff(a: "V", b: "V", path: "path", config: "cfg") -> "Seq[E]":
     # both values of one container type (otherwise the function raises RuntimeError by design)
@@ -230,6 +237,9 @@ def diff(a: "V", b: "V", path: "path", config: "cfg") -> "Seq[E]":
     ensures(apply_v(a, result) == b)
     # C11 for generic diffs: the result is well formed for `a` all the way down
     ensures(wf_v(a, result))
+    # C02, emptiness clause: an empty diff is produced only for identical documents
+    ensures(implies(len(result) == 0, a == b))
+    hint(apply_map_nil(as_map(a), result))
 
 
 # ------------------------------------------------------------------ the round trip as client code over the two contracts
